@@ -419,7 +419,7 @@ class ListOps:
     def from_items(self, terms):
         x = self.empty()
         for t in terms:
-            x = self.append(x, t)
+            x = self.append(x, z3.simplify(t))
         return x
 
     def _fn(self, name, *sorts):
@@ -429,7 +429,17 @@ class ListOps:
             return ListOps._funcs[key], True
         return ListOps._funcs[key], False
 
+    def _concrete(self, x, maxn=8):
+        """If the list has a small concrete length return its element terms (canonical form)."""
+        n = z3.simplify(self.len(x))
+        if z3.is_int_value(n) and 0 <= n.as_long() <= maxn:
+            return [z3.simplify(self.at(x, z3.IntVal(i))) for i in range(n.as_long())]
+        return None
+
     def concat(self, x, y):
+        cx, cy = self._concrete(x), self._concrete(y)
+        if cx is not None and cy is not None:
+            return self.from_items(cx + cy)
         L = self.dt
         f, new = self._fn('concat', L, L, L)
         if new:
@@ -445,6 +455,9 @@ class ListOps:
         return f(x, y)
 
     def slice(self, x, a, n):
+        nn, aa = z3.simplify(n), z3.simplify(a)
+        if z3.is_int_value(nn) and z3.is_int_value(aa) and 0 <= nn.as_long() <= 8:
+            return self.from_items([z3.simplify(self.at(x, z3.IntVal(aa.as_long() + i))) for i in range(nn.as_long())])
         L = self.dt
         f, new = self._fn('slice', L, z3.IntSort(), z3.IntSort(), L)
         if new:
